@@ -33,6 +33,8 @@ pub struct RunSpec {
     pub env: Vec<(String, String)>,
     pub action: Action,
     pub timeout: Duration,
+    /// keep our end of the stdin pipe open this long after all data was written (a producer that is slow to close)
+    pub hold_stdin: Duration,
 }
 
 impl RunSpec {
@@ -43,6 +45,7 @@ impl RunSpec {
             env: vec![],
             action: Action::None,
             timeout: Duration::from_secs(20),
+            hold_stdin: Duration::ZERO,
         }
     }
     pub fn describe(&self) -> Value {
@@ -163,6 +166,7 @@ pub fn run(bin: &Path, spec: &RunSpec) -> RunOut {
             let mut stdin = child.stdin.take().unwrap();
             let data = data.clone();
             let chunk = *chunk;
+            let hold = spec.hold_stdin;
             Some(std::thread::spawn(move || {
                 if chunk == 0 {
                     let _ = stdin.write_all(&data);
@@ -173,6 +177,10 @@ pub fn run(bin: &Path, spec: &RunSpec) -> RunOut {
                         }
                         let _ = stdin.flush();
                     }
+                }
+                if !hold.is_zero() {
+                    let _ = stdin.flush();
+                    std::thread::sleep(hold);
                 }
                 drop(stdin);
             }))
